@@ -361,7 +361,7 @@ def gen_c09(tier, rng):
         ops = [pline(p, "p%d" % i) for i, p in enumerate(pks)] + ["enc e dev %d" % rng.getrandbits(16), "enc e stream %d" % rng.getrandbits(8)]
         for _k in range(rng.randrange(2, 5)):
             if rng.random() < 0.6:
-                ops.append("pk plsettype p%d %d" % (rng.randrange(3), rng.choice([0x0110, 0x0210, 0x0310, 0xFF10])))
+                ops.append("pk plsettype p%d %d" % (rng.randrange(3), rng.choice([0x0110, 0x0210, 0x0310, 0xFF10, 0x0100, 0x0300, 0xFF00, 0x0200])))
             ops.append("enc e encode %d 64 %s" % (rng.choice([0, 64]), " ".join("p%d" % rng.randrange(3) for _j in range(rng.randrange(1, 4)))))
             ops.append("enc e seq")
         cases.append(Case("h", ops, nontrivial=True, tags=("retagged-in-place",)))
